@@ -32,7 +32,7 @@ def fixed_cases(tier):
 
 
 def n_generated(tier):
-    return 2500 if tier == "quick" else 40000
+    return 2500 if tier == "quick" else 16000
 
 
 def strategy(tier):
